@@ -23,8 +23,8 @@ LEVEL = ("Generated-input exploration over multi-modal / anisotropic / degenerat
 BUDGET = {"quick": 250, "thorough": 2500}
 WATCHDOG = {"quick": 20, "thorough": 60}
 RULE = ("Cases: 20..80 descriptors (thorough 250) in 1..4 dimensions from 1..3 anisotropic clusters, 15% with a coordinate that is a "
-        "multiple of another (degenerate), weights None / positive, grids of 2..sqrt(n)+2 points (random subset, farthest-point subset or "
-        "arbitrary points), fpoints in (0.1,0.8) or fspread in (0.05,1), optional cell (1.2..3 x extent, or all sides 2 pi), 4 queries "
+        "multiple of another (degenerate), 15% binned onto a half-integer lattice with grid points on distinct lattice sites (exact ties, repeated descriptors), weights None / positive, grids of 2..sqrt(n)+2 points (random subset, farthest-point subset or "
+        "arbitrary points), fpoints in (0.1,0.8) or fspread in 10^(-3,0), optional cell (1.2..3 x extent, or all sides 2 pi), 4 queries "
         "near the data, 2 far away and 2 sharing all but one coordinate with a descriptor; refit of the same object on a second grid; translations, permutations of descriptors and grid points, integer image shifts -2..2 of "
         "descriptors, queries and (in half of the periodic cases) grid points.  Precondition by construction/classification: "
         "max(fpoints, largest grid weight + 1/n) <= 0.9 (fit does not terminate otherwise, DESIGN 3.4).  Non-trivial: >= 2 grid points "
@@ -80,10 +80,22 @@ def strategy_(draw, tier):
             desc[:, -1] = desc[:, 0] * 0.5
         else:
             desc[:, -1] = 0.5            # cloud confined to a coordinate plane
+    lattice = draw(st.integers(0, 99)) < 15
+    if lattice:
+        # binned descriptors: half-integer lattice sites (exact arithmetic), so that descriptors are exactly equidistant from
+        # two grid points; repeated descriptors occur
+        msite = max(4, int(np.ceil((2.0 * n) ** (1.0 / D))))
+        desc = rng.integers(0, msite, size=(n, D)) * 0.5
+        degenerate = False
     w = None if draw(st.booleans()) else rng.uniform(0.2, 2, size=n)
     ng = draw(st.integers(2, max(3, int(np.sqrt(n)) + 2)))
     gkind = draw(st.sampled_from(["subset", "subset", "fps", "arbitrary"]))
-    if gkind == "subset":
+    if lattice:
+        sites = np.unique(desc, axis=0)
+        ng = min(ng, len(sites))
+        gkind = "lattice"
+        grid = sites[rng.choice(len(sites), ng, replace=False)].copy()       # pairwise distinct grid points
+    elif gkind == "subset":
         grid = desc[rng.choice(n, ng, replace=False)].copy()
     elif gkind == "fps":
         idx = [int(rng.integers(0, n))]
@@ -101,11 +113,12 @@ def strategy_(draw, tier):
     elif ck == "box":
         cell = np.ptp(desc, axis=0) * rng.uniform(1.2, 3) + 1e-3
     else:
-        sc = np.ptp(desc, axis=0).max() * 1.5 / TWO_PI
+        # (binned descriptors: a factor for which no lattice distance is exactly half a cell side, where the minimum image is two-valued)
+        sc = np.ptp(desc, axis=0).max() * (1.37 if lattice else 1.5) / TWO_PI
         desc, grid = desc / sc, grid / sc
         cell = np.full(D, TWO_PI)
     mode = draw(st.sampled_from(["fpoints", "fspread"]))
-    val = float(rng.uniform(0.1, 0.8)) if mode == "fpoints" else float(rng.uniform(0.05, 1.0))
+    val = float(rng.uniform(0.1, 0.8)) if mode == "fpoints" else float(10.0 ** rng.uniform(-3, 0))
     Q = np.vstack([rng.normal(size=(4, D)) * 0.7 * desc.std() + desc[rng.integers(0, n, 4)],
                    rng.normal(size=(2, D)) * 8 * desc.std() + desc.mean(0)])
     # two queries that share all but one coordinate with a descriptor (they are not descriptors)
@@ -116,7 +129,8 @@ def strategy_(draw, tier):
     return {"desc": desc, "w": w, "grid": grid, "gkind": gkind, "cell": cell, "cellkind": ck, "mode": mode, "val": val, "Q": Q,
             "degenerate": degenerate, "shift": rng.normal(size=D) * 5,
             "shd": rng.integers(-2, 3, size=(n, D)), "shg": rng.integers(-2, 3, size=(ng, D)), "shq": rng.integers(-2, 3, size=(len(Q), D)),
-            "grid2": desc[rng.choice(n, ng, replace=False)].copy(),
+            "grid2": (np.unique(desc, axis=0)[rng.choice(len(np.unique(desc, axis=0)), ng, replace=False)] if lattice
+                      else desc[rng.choice(n, ng, replace=False)]).copy(),
             "shift_grid": draw(st.booleans()), "perm": rng.permutation(n), "permg": rng.permutation(ng)}
 
 
@@ -131,9 +145,12 @@ class CovRecorder:
     def __init__(self, substitute=False):
         self.den = []
         self.substitute = substitute
-        self.orig = MOD._covariance
+        self.orig = getattr(MOD, "_covariance", None)     # private helper: without it nothing is recorded (fewer claims, no alarm)
 
     def __enter__(self):
+        if self.orig is None:
+            return self
+
         def wrapped(X, sw, cell):
             t = np.sum(sw)
             self.den.append(float(1 - np.sum((sw / t) ** 2)))
@@ -144,7 +161,38 @@ class CovRecorder:
         return self
 
     def __exit__(self, *a):
-        MOD._covariance = self.orig
+        if self.orig is not None:
+            MOD._covariance = self.orig
+
+
+def model_reach(case, grid, gw, cell):
+    """Reference model of the documented fspread localisation: sigma^2 = fspread^2 x trace of the weighted grid covariance (sum of the
+    squared cell sides with a cell), replaced by the squared distance to the nearest other grid point when it is smaller than
+    the local population.  Returns per grid point 1 - sum (u/sum u)^2 of the localisation weights u (0 = the localisation
+    reaches no other grid point), or None where the branch taken is decided by rounding."""
+    ng = len(grid)
+    if cell is None:
+        tot = gw.sum()
+        xm = (gw[:, None] * grid).sum(0) / tot
+        tune = float(((gw / tot)[:, None] * (grid - xm) ** 2).sum() / (1 - np.sum((gw / tot) ** 2)))
+    else:
+        tune = float(np.sum(np.asarray(cell) ** 2))
+    d2 = (sqd(grid, grid, cell) ** 2).sum(-1)
+    out = []
+    for i in range(ng):
+        s2 = tune * case["val"] ** 2
+        with np.errstate(all="ignore"):
+            u = gw * np.exp(-0.5 * d2[i] / s2)
+            fl = float(u.sum())
+            if abs(s2 - fl) <= 1e-9 * max(s2, fl):
+                out.append(None)
+                continue
+            if s2 < fl:
+                other = np.delete(d2[i], i)
+                u = gw * np.exp(-0.5 * d2[i] / other.min())
+            t = u.sum()
+            out.append(float(1 - np.sum((u / t) ** 2)) if t > 0 and np.isfinite(t) else 0.0)
+    return out
 
 
 def make(case, desc, w, grid, rec):
@@ -203,10 +251,16 @@ def evaluate(case, ctx, substitute=False, only=None):
     if case["mode"] == "fpoints" and max(case["val"], gw.max() + 1.0 / n) > 0.9:
         ctx.skip("outside the domain: fit does not terminate (fpoints / largest cell weight + 1/n > 0.9)")
         return
+    srt = np.sort(dm, axis=1)
+    clear = (srt[:, 1] - srt[:, 0]) > 1e-9 * max(1.0, float(dm.max())) if ng > 1 else np.ones(n, bool)
     with CovRecorder(substitute) as rec:
         try:
             kde = make(case, desc, w, grid, rec)
         except np.linalg.LinAlgError as e:
+            if case["mode"] == "fspread" and not substitute and clear.all() and all(d is not None and d > 1e-6 for d in model_reach(case, grid, gw, cell)):
+                ctx.fail("exception:fit", "LinAlgError although, by the documented fspread rule, every localisation reaches another grid "
+                         "point with a sizeable weight: %s" % str(e)[:120])
+                return
             if any((not np.isfinite(d)) or d < 1e-12 for d in rec.den):
                 ctx.skip("proviso: the localisation of a grid point reaches no other grid point (fit raised LinAlgError)")
                 return
@@ -218,8 +272,6 @@ def evaluate(case, ctx, substitute=False, only=None):
             return
     den = rec.den[1:]
     # ---- assignment and grid weights ------------------------------------------------------------------------
-    srt = np.sort(dm, axis=1)
-    clear = (srt[:, 1] - srt[:, 0]) > 1e-9 * max(1.0, float(dm.max())) if ng > 1 else np.ones(n, bool)
     labels = np.asarray(kde._sample_labels_)
     if only is None:
         ctx.true("assignment==nearest-grid", bool(np.all(labels[clear] == lab[clear])), "a descriptor is not assigned to its nearest grid point")
@@ -231,8 +283,9 @@ def evaluate(case, ctx, substitute=False, only=None):
     # ---- bandwidths -----------------------------------------------------------------------------------------
     H = np.asarray(kde.bandwidth_)
     pd = True
+    mden = model_reach(case, grid, gw, cell) if (case["mode"] == "fspread" and clear.all()) else [None] * ng
     for j in range(ng):
-        reaches = j < len(den) and den[j] > 1e-12
+        reaches = (j < len(den) and den[j] > 1e-12) or (mden[j] is not None and mden[j] > 1e-6)
         Hj = H[j]
         good = bool(np.all(np.isfinite(Hj))) and float(np.abs(Hj - Hj.T).max()) <= 1e-12 * max(float(np.abs(Hj).max()), 1e-300) \
             and float(np.linalg.eigvalsh((Hj + Hj.T) / 2).min()) > 0
@@ -305,6 +358,12 @@ def evaluate(case, ctx, substitute=False, only=None):
         except np.linalg.LinAlgError:
             ctx.skip("refit grid: proviso (LinAlgError)")
     # ---- invariances --------------------------------------------------------------------------------------
+    if not clear.all():
+        # a descriptor exactly (or within rounding) equidistant from two grid points may go to either; which one depends on the
+        # rounding of the transformed coordinates and on the order of the grid points, and so do the log-densities
+        ctx.skip("invariances: tied nearest grid points")
+        ctx.count("cases_with_tied_assignment")
+        return
     fs = np.isfinite(s)
 
     def refit_scores(desc2, w2, grid2, Q2, what):
